@@ -276,6 +276,7 @@ func (cr *concRun) main() {
 				ctx.opIdx, ctx.opKind, ctx.op = i, op.Kind, op
 				h := &HistOp{Task: ti, Idx: i, Op: op, Call: w.Tick(), Now: w.Now}
 				cr.hist = append(cr.hist, h)
+				simrt.BeginOp(simrt.HashString(op.Kind))
 				h.Res = r.Exec(op)
 				h.Ret, h.NowRet = w.Tick(), w.Now
 				h.Done = true
